@@ -36,9 +36,10 @@ const VerifC12MGMTConfigMapKey = "nginx-ingress/nginx-config-mgmt"
 type VerifC12Opts struct {
 	Plus, DynWeights    bool
 	Listeners           []conf_v1.Listener
-	DefaultServerSecret string // ns/name
-	WildcardTLSSecret   string // ns/name
-	ExternalServiceName string // the controller's own Service (namespace nginx-ingress)
+	DefaultServerSecret string   // ns/name
+	WildcardTLSSecret   string   // ns/name
+	ExternalServiceName string   // the controller's own Service (namespace nginx-ingress)
+	Namespaces          []string // watched namespaces; empty = all (one global informer)
 }
 
 // VerifC12New builds the controller through NewLoadBalancerController.
@@ -53,6 +54,10 @@ func VerifC12NewOpts(cnf *configs.Configurator, o VerifC12Opts) (*VerifC12, erro
 	if plus {
 		mgmt = VerifC12MGMTConfigMapKey
 	}
+	watched := o.Namespaces
+	if len(watched) == 0 {
+		watched = []string{""}
+	}
 	rec := record.NewFakeRecorder(1 << 14)
 	lbc := NewLoadBalancerController(NewLoadBalancerControllerInput{
 		KubeClient:                   fake.NewSimpleClientset(),
@@ -62,8 +67,8 @@ func VerifC12NewOpts(cnf *configs.Configurator, o VerifC12Opts) (*VerifC12, erro
 		NginxConfigurator:            cnf,
 		IsNginxPlus:                  plus,
 		IngressClass:                 "nginx",
-		Namespace:                    []string{""},
-		SecretNamespace:              []string{""},
+		Namespace:                    watched,
+		SecretNamespace:              watched,
 		ControllerNamespace:          "nginx-ingress",
 		AreCustomResourcesEnabled:    true,
 		MetricsCollector:             collectors.NewControllerFakeCollector(),
@@ -88,8 +93,36 @@ func VerifC12NewOpts(cnf *configs.Configurator, o VerifC12Opts) (*VerifC12, erro
 	return &VerifC12{lbc: lbc, rec: rec}, nil
 }
 
-func (v *VerifC12) store(kind string) (cache.Store, kind, error) {
-	nsi := v.lbc.namespacedInformers[""]
+// kindOf maps the harness's kind names to task kinds.
+func kindOf(k string) (kind, error) {
+	switch k {
+	case "ingress":
+		return ingress, nil
+	case "virtualserver":
+		return virtualserver, nil
+	case "transportserver":
+		return transportserver, nil
+	case "endpointslice":
+		return endpointslice, nil
+	case "service":
+		return service, nil
+	case "configmap", "mgmtconfigmap":
+		return configMap, nil
+	case "secret":
+		return secret, nil
+	}
+	return 0, fmt.Errorf("unknown kind %q", k)
+}
+
+func (v *VerifC12) store(kind string, obj interface{}) (cache.Store, kind, error) {
+	ns := ""
+	if m, ok := obj.(meta_v1.Object); ok {
+		ns = m.GetNamespace()
+	}
+	nsi := v.lbc.getNamespacedInformer(ns)
+	if nsi == nil && kind != "configmap" && kind != "mgmtconfigmap" {
+		return nil, 0, fmt.Errorf("namespace %q is not watched", ns)
+	}
 	switch kind {
 	case "ingress":
 		return nsi.ingressLister.Store, ingress, nil
@@ -116,7 +149,7 @@ func (v *VerifC12) store(kind string) (cache.Store, kind, error) {
 
 // Put adds or replaces an object in the lister store of its kind.
 func (v *VerifC12) Put(kind string, obj interface{}) error {
-	s, _, err := v.store(kind)
+	s, _, err := v.store(kind, obj)
 	if err != nil {
 		return err
 	}
@@ -125,7 +158,7 @@ func (v *VerifC12) Put(kind string, obj interface{}) error {
 
 // Remove deletes an object from the lister store of its kind.
 func (v *VerifC12) Remove(kind string, obj interface{}) error {
-	s, _, err := v.store(kind)
+	s, _, err := v.store(kind, obj)
 	if err != nil {
 		return err
 	}
@@ -135,7 +168,7 @@ func (v *VerifC12) Remove(kind string, obj interface{}) error {
 // Sync sets the length of the real work queue to qlen and runs the real lbc.sync on the task.
 // It returns the events recorded during the sync.
 func (v *VerifC12) Sync(kind, key string, qlen int) ([]string, error) {
-	_, k, err := v.store(kind)
+	k, err := kindOf(kind)
 	if err != nil {
 		return nil, err
 	}
